@@ -163,7 +163,7 @@ func (tw *TimingWheel) Stop() {
 }
 
 func (tw *TimingWheel) drainAll(fn func(key, value any)) {
-	runner := threading.NewTaskRunner(drainWorkers)
+	var tasks []timingTask
 	for _, slot := range tw.slots {
 		for e := slot.Front(); e != nil; {
 			task := e.Value.(*timingEntry)
@@ -172,12 +172,29 @@ func (tw *TimingWheel) drainAll(fn func(key, value any)) {
 			e = next
 			if !task.removed {
 				tw.timers.Del(task.key)
-				runner.Schedule(func() {
-					fn(task.key, task.value)
+				tasks = append(tasks, timingTask{
+					key:   task.key,
+					value: task.value,
 				})
 			}
 		}
 	}
+
+	if len(tasks) == 0 {
+		return
+	}
+
+	// deliver outside the wheel goroutine: fn may call back into the wheel,
+	// and Schedule blocks while drainWorkers callbacks are running.
+	threading.GoSafe(func() {
+		runner := threading.NewTaskRunner(drainWorkers)
+		for i := range tasks {
+			task := tasks[i]
+			runner.Schedule(func() {
+				fn(task.key, task.value)
+			})
+		}
+	})
 }
 
 func (tw *TimingWheel) getPositionAndCircle(d time.Duration) (pos, circle int) {
